@@ -7,6 +7,7 @@ package main
 
 import (
 	"bytes"
+	"context"
 	"encoding/base64"
 	"encoding/gob"
 	"encoding/hex"
@@ -15,6 +16,7 @@ import (
 	"fmt"
 	"log/slog"
 	"math/rand"
+	"net/http"
 	"strconv"
 	"strings"
 	"text/template"
@@ -25,10 +27,13 @@ import (
 	yaml2 "gopkg.in/yaml.v2"
 	yaml3 "gopkg.in/yaml.v3"
 
+	"go.opentelemetry.io/collector/component/componenttest"
+	"go.opentelemetry.io/collector/config/configcompression"
 	"go.opentelemetry.io/collector/config/configgrpc"
 	"go.opentelemetry.io/collector/config/confighttp"
 	"go.opentelemetry.io/collector/config/configopaque"
 	"go.opentelemetry.io/collector/confmap"
+	"go.opentelemetry.io/collector/confmap/xconfmap"
 	"go.opentelemetry.io/collector/verifharness/lib/driver"
 )
 
@@ -106,7 +111,7 @@ func leaks(out string, nd []string) string {
 	return ""
 }
 
-var secretClasses = []string{"token", "format-directives", "contains-marker", "unicode", "quotes-newlines", "long", "yaml-special", "only-percent", "whitespace-edges"}
+var secretClasses = []string{"token", "format-directives", "contains-marker", "unicode", "quotes-newlines", "long", "yaml-special", "only-percent", "whitespace-edges", "control-chars"}
 
 func mkSecret(rng *rand.Rand, class string) string {
 	const al = "abcdefghijkmnpqrstuvwxyzABCDEFGHJKLMNPQRSTUVWXYZ23456789"
@@ -134,6 +139,10 @@ func mkSecret(rng *rand.Rand, class string) string {
 		// leading / trailing (unicode) white space is part of the secret and must survive unmarshalling
 		ws := []string{" ", "\t", "\n", "\r\n", "\u00a0", "\u2003", "  "}
 		return ws[rng.Intn(len(ws))] + tok(10) + ws[rng.Intn(len(ws))]
+	case "control-chars":
+		// what a token read from a file or a bad paste looks like: net/http rejects such header values
+		cc := []string{"\n", "\r\n", "\x00", "\x7f", "\x1b[31m"}
+		return tok(12) + cc[rng.Intn(len(cc))]
 	case "yaml-special":
 		return []string{": ", "- ", "{", "#", "!!", "&a "}[rng.Intn(6)] + tok(12)
 	default:
@@ -267,6 +276,37 @@ func encoders(s configopaque.String, in inner, kd keyed, emit func(rendering)) {
 		for _, k := range cm.AllKeys() {
 			enc("confmap", "Marshal+Get", c.name, fmt.Sprintf("%s=%v", k, cm.Get(k)), nil, false)
 		}
+	}
+	// error texts a user sees when a configuration holding the secret is validated or used
+	errText := func(err error) string {
+		if err == nil {
+			return ""
+		}
+		return err.Error() + " | " + fmt.Sprintf("%v %+v %q", err, err, err)
+	}
+	hc := &confighttp.ClientConfig{Endpoint: "http://127.0.0.1:1", Headers: in.M, Compression: "gzip", CompressionParams: configcompression.CompressionParams{Level: 1000}}
+	emit(rendering{"error", "confighttp.ClientConfig.Validate", "http.ClientConfig", "", errText(hc.Validate()), false})
+	emit(rendering{"error", "xconfmap.Validate(http.ClientConfig)", "http.ClientConfig", "", errText(xconfmap.Validate(hc)), false})
+	hc2 := &confighttp.ClientConfig{Endpoint: "http://127.0.0.1:1", Headers: in.M} // nothing else wrong: a check of the headers themselves would be the first error
+	emit(rendering{"error", "confighttp.ClientConfig.Validate (headers only)", "http.ClientConfig", "", errText(hc2.Validate()), false})
+	emit(rendering{"error", "xconfmap.Validate(http.ClientConfig, headers only)", "http.ClientConfig", "", errText(xconfmap.Validate(hc2)), false})
+	hs := &confighttp.ServerConfig{Endpoint: "127.0.0.1:0", ResponseHeaders: in.M}
+	emit(rendering{"error", "xconfmap.Validate(http.ServerConfig)", "http.ServerConfig", "", errText(xconfmap.Validate(hs)), false})
+	gc := &configgrpc.ClientConfig{Endpoint: "127.0.0.1:1", Headers: in.M, BalancerName: "no_such_balancer"}
+	emit(rendering{"error", "configgrpc.ClientConfig.Validate", "grpc.ClientConfig", "", errText(gc.Validate()), false})
+	emit(rendering{"error", "xconfmap.Validate(grpc.ClientConfig)", "grpc.ClientConfig", "", errText(xconfmap.Validate(gc)), false})
+	// a request through the real client: header values net/http rejects produce an error the exporter logs
+	okc := &confighttp.ClientConfig{Endpoint: "http://127.0.0.1:1", Headers: in.M}
+	if cl, err := okc.ToClient(context.Background(), componenttest.NewNopHost(), componenttest.NewNopTelemetrySettings()); err != nil {
+		emit(rendering{"error", "confighttp.ToClient", "http.ClientConfig", "", errText(err), false})
+	} else {
+		req, _ := http.NewRequest(http.MethodPost, "http://127.0.0.1:1/x", strings.NewReader("x"))
+		resp, err := cl.Do(req)
+		if resp != nil {
+			resp.Body.Close()
+		}
+		emit(rendering{"error", "http client Do with configured headers", "http.ClientConfig", "", errText(err), false})
+		cl.CloseIdleConnections()
 	}
 	// zap field encoders
 	for _, encName := range []string{"json", "console"} {
@@ -428,7 +468,8 @@ func run(c *driver.Ctx) {
 			c.Sample(map[string]any{"secret_class": class, "secret": sec, "renderings_per_path": paths,
 				"example": fmt.Sprintf("Sprintf(%%+#10.3x, struct) = %q", fmt.Sprintf("%+#10.3x", in))})
 		}
-		// the empty secret: nothing can leak, the marker must still be rendered
+		// the empty secret: nothing can leak, but every string-like rendering must still show the fixed marker
+		// (a rendering of "" would tell which credentials are unset)
 		if i == 0 {
 			e := configopaque.String("")
 			for _, out := range []string{fmt.Sprint(e), fmt.Sprintf("%s|%v|%q|%#v", e, e, e, e), e.String()} {
@@ -437,9 +478,30 @@ func run(c *driver.Ctx) {
 					c.Violation("marker", "empty secret not rendered as the marker: "+out, nil, "path", "fmt", "detail", "empty", "container", "val")
 				}
 			}
-			eb, _ := json.Marshal(e)
-			if !strings.Contains(string(eb), marker) {
-				c.Violation("marker", "empty secret not rendered as the marker in JSON: "+string(eb), nil, "path", "json", "detail", "empty", "container", "val")
+			ein, ekd := build(e)
+			check := func(r rendering) {
+				c.Eval()
+				c.Nontrivial(r.path, r.detail, r.container, "empty-secret")
+				if r.strlike && !strings.Contains(r.out, marker) {
+					o := r.out
+					if len(o) > 300 {
+						o = o[:300]
+					}
+					c.Violation("marker", fmt.Sprintf("empty secret: rendering via %s %s of %s does not show the redaction marker: %q", r.path, r.detail, r.container, o),
+						map[string]any{"secret": "", "path": r.path, "detail": r.detail, "container": r.container, "output": o},
+						"path", r.path, "detail", "empty:"+r.detail, "container", r.container)
+				}
+			}
+			encoders(e, ein, ekd, check)
+			// every opaque position of the marshalled configuration map holds the marker
+			cm := confmap.New()
+			if err := cm.Marshal(ein); err == nil {
+				for _, k := range []string{"s", "p", "m::h", "i", "n::inner::x"} {
+					c.Eval()
+					if v := cm.Get(k); fmt.Sprint(v) != marker {
+						c.Violation("marker", fmt.Sprintf("empty secret: confmap.Marshal renders key %s as %q, want the marker", k, fmt.Sprint(v)), nil, "path", "confmap", "detail", "empty:key", "container", k)
+					}
+				}
 			}
 		}
 	}
@@ -449,7 +511,7 @@ func main() {
 	driver.Main(driver.Spec{
 		ID:    "C14",
 		Level: "exploration",
-		Rule: "a case is one (rendering path, exact format/function, container, secret class); the fmt verb x flag x width grid (24 verbs x 13 flag sets x 8 width/precision forms x 17 containers, plus Fprintf/Errorf/Appendf/Sprint*) is enumerated completely for every generated secret (9 secret classes incl. format directives, the marker itself, unicode, white space at the edges); per secret also: string(s) returns it, confmap / encoding/json / yaml.v3 unmarshalling store it unchanged, and renderings are unaffected by a caller overwriting the bytes MarshalText/MarshalBinary returned; " +
+		Rule: "a case is one (rendering path, exact format/function, container, secret class); the fmt verb x flag x width grid (24 verbs x 13 flag sets x 8 width/precision forms x 17 containers, plus Fprintf/Errorf/Appendf/Sprint*) is enumerated completely for every generated secret (10 secret classes incl. format directives, the marker itself, unicode, white space at the edges, control characters; the empty secret must render the marker on every string-like path); error texts of Validate()/xconfmap.Validate and of a real client request with the configured headers are rendering paths too; per secret also: string(s) returns it, confmap / encoding/json / yaml.v3 unmarshalling store it unchanged, and renderings are unaffected by a caller overwriting the bytes MarshalText/MarshalBinary returned; " +
 			"every case is non-trivial (a secret is present in the rendered value); distinct = distinct (path, format, container, secret class)",
 		Assumptions: []string{
 			"containers are the positions a configuration can have: exported struct fields, pointers, slices, arrays, map values, map keys, interfaces; unexported fields are excluded (fmt cannot call methods on them and mapstructure cannot populate them)",
